@@ -9,6 +9,7 @@ import (
 	"encoding/json"
 	"fmt"
 	"sort"
+	"strings"
 	"time"
 
 	sdk "github.com/cosmos/cosmos-sdk/types"
@@ -18,6 +19,7 @@ import (
 	"github.com/osmosis-labs/osmosis/v31/x/gamm/pool-models/balancer"
 	"github.com/osmosis-labs/osmosis/v31/x/gamm/pool-models/stableswap"
 	incentivestypes "github.com/osmosis-labs/osmosis/v31/x/incentives/types"
+	superfluidtypes "github.com/osmosis-labs/osmosis/v31/x/superfluid/types"
 	txfeestypes "github.com/osmosis-labs/osmosis/v31/x/txfees/types"
 )
 
@@ -38,6 +40,7 @@ type setupSpec struct {
 	FeeTokens [][]string `json:"fee_tokens"` // [denom, pool id]
 	MinDistr  string     `json:"min_distr"`  // incentives MinValueForDistribution in uosmo ("" = leave default)
 	Protorev  [][]string `json:"protorev"`   // [base denom, other denom, pool id]: protorev's highest-liquidity pool of the pair
+	Superfluid []string  `json:"superfluid"` // share denoms (gamm/pool/N, cl/pool/N) enabled for superfluid staking
 }
 
 func mustInt(s string) osmomath.Int {
@@ -141,6 +144,23 @@ func (c *chain) setup(tc tcase) {
 	for _, pr := range s.Protorev {
 		a.ProtoRevKeeper.SetPoolForDenomPair(c.Ctx, pr[0], pr[1], mustInt(pr[2]).Uint64())
 	}
+	if len(s.Superfluid) > 0 {
+		// superfluid delegation creates a gauge over the unbonding time, which must be a lockable duration
+		up, err := a.StakingKeeper.GetParams(c.Ctx)
+		if err != nil {
+			panic(err)
+		}
+		a.IncentivesKeeper.SetLockableDurations(c.Ctx, append(a.IncentivesKeeper.GetLockableDurations(c.Ctx), up.UnbondingTime))
+		for _, d := range s.Superfluid {
+			at := superfluidtypes.SuperfluidAssetTypeLPShare
+			if strings.HasPrefix(d, "cl/") {
+				at = superfluidtypes.SuperfluidAssetTypeConcentratedShare
+			}
+			if err := a.SuperfluidKeeper.AddNewSuperfluidAsset(c.Ctx, superfluidtypes.SuperfluidAsset{Denom: d, AssetType: at}); err != nil {
+				panic(fmt.Sprintf("superfluid asset %s: %v", d, err))
+			}
+		}
+	}
 	if s.MinDistr != "" {
 		a.IncentivesKeeper.SetParam(c.Ctx, incentivestypes.KeyMinValueForDistr, sdk.NewCoin("uosmo", mustInt(s.MinDistr)))
 	}
@@ -243,6 +263,41 @@ func diffVal(path string, x, y interface{}, out *[]string) {
 			*out = append(*out, fmt.Sprintf("%s: %s vs %s", path, short(x), short(y)))
 			return
 		}
+		// lists of records are aligned by their identifying field, so that one missing or moved record is
+		// reported as such instead of shifting every later index
+		if key := alignKey(xv, yv); key != "" {
+			xi, xo := indexBy(xv, key)
+			yi, yo := indexBy(yv, key)
+			for _, id := range xo {
+				if _, ok := yi[id]; !ok {
+					*out = append(*out, fmt.Sprintf("%s[%s=%s]: present=true vs present=false", path, key, id))
+				}
+			}
+			for _, id := range yo {
+				if _, ok := xi[id]; !ok {
+					*out = append(*out, fmt.Sprintf("%s[%s=%s]: present=false vs present=true", path, key, id))
+				}
+			}
+			common := []string{}
+			for _, id := range xo {
+				if _, ok := yi[id]; ok {
+					common = append(common, id)
+					diffVal(fmt.Sprintf("%s[%s=%s]", path, key, id), xi[id], yi[id], out)
+				}
+			}
+			j := 0
+			for _, id := range yo {
+				if _, ok := xi[id]; !ok {
+					continue
+				}
+				if j < len(common) && common[j] != id {
+					*out = append(*out, fmt.Sprintf("%s<order>: the common records are listed in a different order (first at %s=%s vs %s)", path, key, common[j], id))
+					break
+				}
+				j++
+			}
+			return
+		}
 		if len(xv) != len(yv) {
 			*out = append(*out, fmt.Sprintf("%s: length %d vs %d", path, len(xv), len(yv)))
 		}
@@ -254,4 +309,54 @@ func diffVal(path string, x, y interface{}, out *[]string) {
 			*out = append(*out, fmt.Sprintf("%s: %s vs %s", path, short(x), short(y)))
 		}
 	}
+}
+
+var alignKeys = []string{"id", "ID", "identifier", "lock_id", "position_id", "gauge_id", "underlying_lock_id", "address", "denom", "pool_id", "name", "key", "index"}
+
+// alignKey: a field present in every element of both lists whose values are unique within each list
+func alignKey(xv, yv []interface{}) string {
+	if len(xv)+len(yv) == 0 {
+		return ""
+	}
+	for _, k := range alignKeys {
+		ok := true
+		for _, l := range [][]interface{}{xv, yv} {
+			seen := map[string]bool{}
+			for _, e := range l {
+				m, isM := e.(map[string]interface{})
+				if !isM {
+					return ""
+				}
+				v, has := m[k]
+				if !has {
+					ok = false
+					break
+				}
+				sv := short(v)
+				if seen[sv] {
+					ok = false
+					break
+				}
+				seen[sv] = true
+			}
+			if !ok {
+				break
+			}
+		}
+		if ok {
+			return k
+		}
+	}
+	return ""
+}
+
+func indexBy(l []interface{}, key string) (map[string]interface{}, []string) {
+	m := map[string]interface{}{}
+	order := []string{}
+	for _, e := range l {
+		id := short(e.(map[string]interface{})[key])
+		m[id] = e
+		order = append(order, id)
+	}
+	return m, order
 }
